@@ -149,7 +149,25 @@ func TestV2Session(t *testing.T) {
 			v.IntegrityAlgorithm = integ(alg, key)
 			p := genPayload().Draw(t, "p")
 			w := ser(t, &v, gopacket.Payload(p))
+			// as in a session, one hash value may serve both directions; and a packet
+			// that fails verification may have been received in between
 			d.IntegrityAlgorithm = integ(alg, key)
+			if rapid.Bool().Draw(t, "sharedHash") {
+				d.IntegrityAlgorithm = v.IntegrityAlgorithm
+				if v.Authenticated && alg != 0 && rapid.Bool().Draw(t, "rejectedPacketFirst") {
+					bad := exact(w)
+					bad[len(bad)-1-rapid.IntRange(0, 3).Draw(t, "badByte")] ^= byte(rapid.IntRange(1, 255).Draw(t, "badXor"))
+					var junk ipmi.V2Session
+					junk.IntegrityAlgorithm = v.IntegrityAlgorithm
+					if err := junk.DecodeFromBytes(bad, gopacket.NilDecodeFeedback); err == nil {
+						t.Fatalf("packet with a corrupted AuthCode decoded without an error: % x", bad)
+					}
+					if w2 := ser(t, &v, gopacket.Payload(p)); !bytes.Equal(w, w2) {
+						t.Fatalf("serialising the same value again after a rejected packet gives different bytes:\n% x\n% x", w, w2)
+					}
+					ev.Label("v2:round-trip-after-rejected-packet")
+				}
+			}
 			if err := d.DecodeFromBytes(exact(w), gopacket.NilDecodeFeedback); err != nil {
 				t.Fatalf("decode of own serialisation failed: %v (% x)", err, w)
 			}
@@ -367,7 +385,7 @@ func TestCoverage(t *testing.T) {
 	for i := 0; i < 16; i++ {
 		need = append(need, fmt.Sprintf("aes:len%%16=%d", i))
 	}
-	ev.RequireLabels(t, 1, need...)
+	ev.RequireLabels(t, 1, append(need, "v2:round-trip-after-rejected-packet")...)
 }
 
 func min(a, b int) int {
